@@ -11,14 +11,14 @@ Definition within (a b bound : Q) : bool := Qle_bool (Qabs (a - b)) bound.
 
 Definition rel_run : Q := pow2 (-30).     (* whole runs (rounding accumulates over the sweeps) *)
 Definition rel_step : Q := pow2 (-40).    (* one sweep from the implementation's own previous iterate *)
-Definition amb : Q := pow2 (-30).         (* margin of the stopping comparison below which a case is ambiguous *)
+Definition amb : Q := pow2 (-30).         (* margin of the stopping comparison, relative to 1 + |c_k| + |c_(k-1)|, below which a case is ambiguous *)
 
 (* ---- whole run: the model runs from the initial guess; iterates compared at the end ---- *)
 Definition min_margin (tol : Q) (cs : list Q) : Q :=
   (fix go (prev : Q) (l : list Q) (m : Q) : Q :=
      match l with
      | [] => m
-     | c :: t => let d := Qabs (Qabs (c - prev) - tol) in go c t (if Qle_bool d m then d else m)
+     | c :: t => let d := Qabs (Qabs (c - prev) - tol) / (1 + Qabs c + Qabs prev) in go c t (if Qle_bool d m then d else m)
      end) (hd 0 cs) (tl cs) 1.
 
 Definition cmp_run (tol : Q) (x0 : vec) (model : result) (err : bool) (ix : vec) (ics : list Q) : Z :=
@@ -78,7 +78,7 @@ Section Trace.
               else
                 let stop := stop_now tol prev mc in
                 let near := match prev with None => false
-                                          | Some p => Qle_bool (Qabs (Qabs (mc - p) - tol)) amb end in
+                                          | Some p => Qle_bool (Qabs (Qabs (mc - p) - tol)) (amb * (1 + Qabs mc + Qabs p)) end in
                 match xs' with
                 | [] => match cs' with
                         | [] => if stop || Nat.eqb f 0 then 0%Z else if near then 2%Z else 1%Z
